@@ -588,13 +588,13 @@ Qed.
 (* G. cancellation of a pending wait under the global lock *)
 Lemma cancel_core c s s2 a p np k ents' :
   Inv s -> aget a (s_ops s) = Some p ->
-  pc_handles p k = 1 -> pc_waits p k = true -> np_handles np k = 0 -> np_waits np k = false ->
+  pc_handles p k = 1 -> np_handles np k = 0 -> np_waits np k = false ->
   (forall k', k' <> k -> pc_handles p k' = np_handles np k' /\ pc_waits p k' = np_waits np k') ->
   cancel_ents c (s_ents s) a k = inl (Some ents') ->
   s_ents s2 = ents' -> s_guards s2 = s_guards s -> s_ops s2 = s_ops s -> s_gid s2 = s_gid s ->
   Inv (upd_ops s2 a np).
 Proof.
-  intros HI Ha Hp Hpw Hnp Hnw Hoth Hc E1 E2 E3 E4. subst ents'.
+  intros HI Ha Hp Hnp Hnw Hoth Hc E1 E2 E3 E4. subst ents'.
   pose proof HI as [nde ndg ndo hgid hk]. pose proof (hk k) as [kmx kg kw kr k2 kp].
   unfold cancel_ents in Hc. destruct (aget k (s_ents s)) as [e|] eqn:He; [|discriminate].
   pose proof (lf_handles s s2 a p np HI Ha E3 k) as Hh. rewrite E2 in Hh. fold (handles s k) in Hh.
@@ -602,11 +602,11 @@ Proof.
   pose proof (agent_handles s a p k Ha) as Hge1.
   assert (Hd : handles s k = gcount (s_guards s) k + ops_handles (s_ops s) k) by reflexivity.
   set (e1 := set_repl (mx_cancel e a) (e_repl e - 1)) in *.
-  set (ents1 := promote_if_lru c k (aset k e1 (s_ents s))) in *.
+  set (ents1 := aset k e1 (s_ents s)) in *.
   assert (G1 : forall k', aget k' ents1 = aget k' (aset k e1 (s_ents s))).
-  { intros k'. unfold ents1, promote_if_lru. destruct (c_lru c); auto. apply aget_apromote. }
+  { intros k'. reflexivity. }
   assert (N1 : NoDup (akeys ents1)).
-  { unfold ents1, promote_if_lru. destruct (c_lru c); [apply NoDup_apromote|]; apply NoDup_aset; auto. }
+  { unfold ents1. apply NoDup_aset; auto. }
   assert (Hg' : forall g, guard_on (upd_ops s2 a np) g k <-> guard_on s g k).
   { intros g. rewrite lf_guard. unfold guard_on. rewrite E2. tauto. }
   assert (Hw' : forall a', waits_on (upd_ops s2 a np) a' k <->
@@ -927,7 +927,8 @@ Proof.
     + apply begin_unlock_inv; auto.
     + rewrite begin_unlock_ops; auto.
     + solve_pc.
-  - destruct (c_lru c && Z.leb 0 d)%bool; inv H. apply start_inv; auto; try solve_pc.
+  - destruct (c_lru c && Z.leb 0 d)%bool; [|discriminate]. destruct (cutoff_of (s_clock s) d); inv H; auto.
+    apply start_inv; auto; try solve_pc.
   - inv H. apply start_inv; auto; try solve_pc.
   - inv H. apply start_inv; auto; try solve_pc.
   - inv H. apply start_inv; auto; try solve_pc.
@@ -1046,15 +1047,13 @@ Proof.
   intros HI Ha H. unfold do_scan in H.
   destruct (iter_order c s o) as [order|] eqn:Eord; [|discriminate].
   destruct (iter_order_spec c s o order (inv_nd_e _ HI) Eord) as (Hnd & Hin & _).
-  destruct cutoff as [ct|].
-  - destruct (lock_keys_inv (expired_keys (s_ents s) order ct) s HI) as [HI2 Hops].
-    { unfold expired_keys. apply NoDup_filter; auto. }
-    { intros k0 Hk. unfold expired_keys in Hk. apply filter_In in Hk as [_ Hk].
-      destruct (aget k0 (s_ents s)) as [e|]; [|discriminate]. exists e. split; auto.
-      destruct (e_owner e); [discriminate|auto]. }
-    destruct (lock_keys s (expired_keys (s_ents s) order ct)) as [s1 l] eqn:El. cbn [fst] in *. inv H.
-    apply (pc_change_inv s1 a (PScan (Some ct)) None); auto; try congruence; solve_pc.
-  - inv H. apply (pc_change_inv s a (PScan None) None); auto; solve_pc.
+  destruct (lock_keys_inv (expired_keys (s_ents s) order cutoff) s HI) as [HI2 Hops].
+  { unfold expired_keys. apply NoDup_filter; auto. }
+  { intros k0 Hk. unfold expired_keys in Hk. apply filter_In in Hk as [_ Hk].
+    destruct (aget k0 (s_ents s)) as [e|]; [|discriminate]. exists e. split; auto.
+    destruct (e_owner e); [discriminate|auto]. }
+  destruct (lock_keys s (expired_keys (s_ents s) order cutoff)) as [s1 l] eqn:El. cbn [fst] in *. inv H.
+  apply (pc_change_inv s1 a (PScan cutoff) None); auto; try congruence; solve_pc.
 Qed.
 
 (* ------------------------------------------------------------------ *)
@@ -1151,13 +1150,12 @@ Proof.
       repeat split; try solve_sub;
         cbn [pc_handles pc_waits np_handles np_waits]; rewrite ?sub_handles_adel, ?sub_waits_adel;
         destruct (Nat.eqb_spec k' k); congruence || auto. }
-  destruct st; try discriminate.
-  - destruct (cleanup_ents (s_ents s) k) as [[ents|]|] eqn:Hc; try discriminate.
-    destruct (Np ents) as (np & Hs' & Hn1 & Hn2 & Hoth). rewrite (Hs' H).
-    apply (cleanup_core s _ a (PStreamDrop subs) np k ents); auto; solve_sub.
-  - destruct (cancel_ents c (s_ents s) a k) as [[ents|]|] eqn:Hc; try discriminate.
-    destruct (Np ents) as (np & Hs' & Hn1 & Hn2 & Hoth). rewrite (Hs' H).
-    apply (cancel_core c s _ a (PStreamDrop subs) np k ents); auto; solve_sub.
+  assert (Hh1 : st <> SUnlocking 0 -> (forall g, st <> SUnlocking g) -> pc_handles (PStreamDrop subs) k = 1).
+  { intros _ Hst. cbn. unfold sub_handles. rewrite Hs. destruct st; auto. exfalso. eapply Hst; eauto. }
+  destruct st; try discriminate;
+    (destruct (cancel_ents c (s_ents s) a k) as [[ents|]|] eqn:Hc; try discriminate;
+     destruct (Np ents) as (np & Hs' & Hn1 & Hn2 & Hoth); rewrite (Hs' H);
+     apply (cancel_core c s _ a (PStreamDrop subs) np k ents); auto; apply Hh1; discriminate).
 Qed.
 
 Definition init_subs (l : list key) : list (key * sub) := map (fun k => (k, SInit)) l.
